@@ -55,7 +55,28 @@ def _conv(m):
     REPLAY["converter"] = lambda c, r: m.pipeline(c, replay=r)
 
 
+def _sample(m):
+    for pid in ("C01", "C02", "C15"):
+        SOURCES.append(("sample-" + pid, lambda c, pid=pid: m.pipeline(c, pid)))
+
+
+def _signal(m):
+    SOURCES.append(("signal", lambda c: m.pipeline(c, prop="all")))
+    REPLAY["signal"] = lambda c, r: m.pipeline(c, replay=r, prop="all")
+
+
+def _dsp1(m):
+    SOURCES.append(("rms", lambda c: m.rms_pipeline(c)))
+    SOURCES.append(("envelope", lambda c: m.env_pipeline(c)))
+    REPLAY["rms"] = lambda c, r: m.rms_pipeline(c, replay=r)
+    for comp in ("rect", "env"):
+        REPLAY[comp] = lambda c, r: m.env_pipeline(c, replay=r)
+
+
 _optional("graph", _graph)
+_optional("sample", _sample)
+_optional("signal", _signal)
+_optional("dsp1", _dsp1)
 _optional("conv", _conv)
 _optional("dsp2", _dsp2)
 
